@@ -222,7 +222,7 @@ to /repo; the later evaluations ran in scratch worktrees through `VERIF_REPO`). 
   explicit CFI procedure of an inserted function - the generator has no inserted functions with cold sections that end in
   a label), C05/r6m2 (two sections of one name, one of them without byte intervals - the builder names sections
   uniquely), C06/r6m3 and C11/r6m1 (reachable only through the internal `_modify` API on one cache, or through a function
-  whose returning blocks carry different return edges, which the builder's CFG never has). What the agents reported about the
+  whose returning blocks carry different return edges, which the builder's CFG never has).
   A false alarm of this round: the recorded C02 finding 'end label captured by the proxy' used to be matched on the
   outcome alone, which hid C02/r6m1 behind it; recognising it on the input (function-less block, or a patch ending in a
   label) was too narrow - the thorough tier on the unchanged tree found a third shape (a batch that puts a `ret` at the
